@@ -67,8 +67,9 @@ def run(ctx: Ctx):
         pairs = [([], c) for c in pool] + [([p], c) for p in pool for c in pool]
         chosen = pairs if len(pairs) <= n_ex else rng.sample(pairs, n_ex)
         for prem, conc in chosen:
+            # "without limits": None, 0 and negative step limits mean unlimited — a tenth of the small arguments run that way
             jobs.append(tabrun.job_for(len(jobs), lg, prem, conc, opts=tabrun.OPTS[rng.randrange(4)], kind='exhaustive-small',
-                                       max_steps=1200))
+                                       max_steps=rng.choice([None, 0, -1]) if rng.random() < 0.1 else 1200))
         for _ in range(n_rand):
             prem, conc = tabrun.rand_argument(rng, depth=rng.choice([2, 3, 3]), max_prem=2)
             jobs.append(tabrun.job_for(len(jobs), lg, prem, conc, opts=tabrun.OPTS[rng.randrange(4)], kind='random',
